@@ -2,6 +2,7 @@
 package main
 
 import (
+	"math"
 	"encoding/json"
 	"fmt"
 	"reflect"
@@ -193,9 +194,9 @@ func shapeClass(s string) string {
 	return s
 }
 
-var touchVals = []keyid.TouchPolicy{-1, 0, 1, 2, 3, 4, 99}
-var usageVals = []keyid.Usage{0, 1, 7}
-var verVals = []uint16{0, 1, 2, 65535}
+var touchVals = []keyid.TouchPolicy{-1, 0, 1, 2, 3, 4, 99, math.MaxInt64, math.MinInt64, 1<<53 + 1}
+var usageVals = []keyid.Usage{0, 1, 7, -1, 1<<53 + 1, math.MaxInt64}
+var verVals = []uint16{0, 1, 2, 65535, 256, 257, 513, 32769, 65281}
 
 // cube enumerates the complete attribute cube: 2^4 flags x 7 touch x 3 usage x 4 versions = 1344.
 func cube(f func(i int, k keyid.KeyID)) int {
